@@ -197,6 +197,8 @@ class IfaceRT:
     def isinstance(self, ex, ref, t):
         ci = t.ci
         key = ci.key if hasattr(ci, 'key') else ci[1]
+        if self.d.isinstance is not None:
+            return self.d.isinstance(ex, ref, key)
         for c in self.d.classes:
             if c == key:
                 return True
@@ -396,6 +398,17 @@ class LoopRun:
         cid = self.contract.id
         self.inputs_env = dict(run.ghost.get('_input_values', {}))
         n = z3.Length(xs.t)
+        # declared cells get their declared kind (an empty python list has no element kind of its own)
+        for name, kind in lp.cells.items():
+            fo, ref = fr.lookup(name)
+            if fo is not None and isinstance(ref, Ref):
+                cell = run.cell(ref)
+                if isinstance(cell, HList) and cell.items is not None:
+                    cell.sym = Sym(kind, P.seq_of(ex, [P.lift(ex, x, kind.elem) for x in cell.items], kind))
+                    cell.items = None
+                elif isinstance(cell, HDict) and cell.items is not None:
+                    cell.sym = P.dict_to_map(ex, cell, kind)
+                    cell.items = None
         # 1. invariant holds on entry
         init = self.inv(ex, fr, 0, xs)
         run.oblige(f'{cid}.loop{ordinal}.inv.init', 'inv.init', _b(ex, init))
@@ -439,6 +452,7 @@ class LoopRun:
         # 3. arbitrary iteration / exit
         if run.decide(k.t < n, tag=f'loop{ordinal}'):
             item = Sym(xs.kind.elem, xs.t[k.t])
+            trace_mark = len(run.trace)
             ex.assign(st.target, item, fr)
             try:
                 ex.exec_block(st.body, fr)
@@ -453,6 +467,10 @@ class LoopRun:
             done1 = Sym(xs.kind, z3.Concat(z3.SubSeq(xs.t, 0, k.t), z3.Unit(xs.t[k.t])))
             step = self.inv(ex, fr, k1, xs, {'done': done1})
             run.oblige(f'{cid}.loop{ordinal}.inv.step', 'inv.step', _b(ex, step))
+            for sname, sfn in lp.step.items():
+                env = self.env(ex, fr, k, xs, {'trace': TraceView(run.trace[trace_mark:]), 'item': item})
+                r = call_clause(ex, self.contract.module, sfn, env, partial=True)
+                run.oblige(f'{cid}.loop{ordinal}.step.{sname}', 'post', _b(ex, r), {'cname': sname, 'clause': sfn})
             raise PathEnd('loop-step')
         # exit: k == n, so done == xs[:n] == xs: the invariant is restated over xs itself (same statement)
         full = self.inv(ex, fr, Sym(K.Int, n), xs, {'done': xs})
@@ -598,6 +616,9 @@ def run_contract(table, registry, contract, feas_timeout_ms=2000, max_paths=400)
     try:
         paths = explorer.explore(entry)
     except OutOfSubset as o:
+        if os.environ.get('PYVC_TRACE'):
+            import traceback
+            traceback.print_exc()
         res.out_of_subset = f'{o.reason}' + (f' (line {o.node.lineno})' if getattr(o, 'node', None) is not None and hasattr(o.node, 'lineno') else '')
         registry.current = None
         return res
